@@ -226,6 +226,8 @@ def element(version, i, name_kind, signer_kind, n):
         el["name"] = "bogus"
     elif name_kind == 4:
         el["name"] = 5
+    elif name_kind == 5:
+        el["name"] = root           # named like the root sentinel
     # signer: root | element k | itself | dangling | missing | non-string
     if signer_kind == 0:
         el["signed_by"] = root
@@ -243,7 +245,7 @@ def element(version, i, name_kind, signer_kind, n):
 @obligation(tier="quick", parts=lambda tier: 12 if tier == "thorough" else 9, timeout=300,
             part_names=lambda p: "v%d/%d elements/target=%s" % (1 + p // 6, 2 + (p % 6) // 3, ["first", "last", "all"][p % 3]),
             bounds="graph focus: 2 or 3 elements; per element the signer is symbolic among {root, each element, itself, dangling, missing, "
-                   "non-string} and the name kind of element 1 among {own, duplicate, invalid, missing, non-string}; targets first / last / "
+                   "non-string} and the name kind of element 1 among {own, duplicate, invalid, missing, non-string, the root's name}; targets first / last / "
                    "all (partition); validation verdict symbolic; versions 1 and 2",
             examples=[(0, dict(s0=0, s1=1, s2=0, nk=0, verdict=True)), (3, dict(s0=2, s1=3, s2=2, nk=0, verdict=True)),
                       (5, dict(s0=0, s1=1, s2=2, nk=1, verdict=False)), (9, dict(s0=2, s1=3, s2=2, nk=0, verdict=True)),
@@ -251,7 +253,7 @@ def element(version, i, name_kind, signer_kind, n):
 def graph(s0: int, s1: int, s2: int, nk: int, verdict: bool) -> bool:
     """
     pre: 0 <= s0 <= 7 and 0 <= s1 <= 7 and 0 <= s2 <= 7
-    pre: 0 <= nk <= 4
+    pre: 0 <= nk <= 5
     post: _
     """
     p = part()
@@ -266,7 +268,7 @@ def graph(s0: int, s1: int, s2: int, nk: int, verdict: bool) -> bool:
     return check(doc, verdict, version)
 
 
-FIELD_KINDS = ["valid", "absent", "not hex", "number", "empty", "list"]
+FIELD_KINDS = ["valid", "absent", "not hex", "empty", "number", "list"]
 KMAX = 5 if THOROUGH else 3        # quick: the first four kinds
 
 
@@ -279,17 +281,17 @@ def pick(lst, i):
 
 
 def field_value(kind, valid):
-    return pick([valid, None, "zz", 7, "", ["aa"]], kind)
+    return pick([valid, None, "zz", "", 7, ["aa"]], kind)
 
 
 @obligation(tier="quick", parts=5, timeout=200,
             part_names=["v1 element fields", "v2 quote fields", "v2 attestation key fields", "v2 x509 fields", "top level (version, targets, elements)"],
             bounds="field focus: in a valid 2-element chain, the fields of one element (message, signature, tweak / custom_data / key / "
-                   "auth_data, type) each symbolic among {valid, absent, not hex, number (T: also empty, list)}; top level: version among {1, 2, 3, "
+                   "auth_data, type) each symbolic among {valid, absent, not hex, empty (T: also number, list)}; top level: version among {1, 2, 3, "
                    "'1', null, absent}, targets among {list, absent, string, list with dangling / duplicate / non-string entries}, elements "
                    "among {list, absent, number, dict, list with a non-object}",
             examples=[(0, dict(a=0, b=0, c=0, d=0, verdict=True)), (0, dict(a=2, b=0, c=1, d=0, verdict=True)), (1, dict(a=0, b=0, c=0, d=0, verdict=False)),
-                      (2, dict(a=0, b=3, c=0, d=0, verdict=True)), (3, dict(a=3, b=0, c=0, d=0, verdict=True)), (4, dict(a=0, b=0, c=0, d=0, verdict=True)),
+                      (2, dict(a=0, b=0, c=3, d=0, verdict=True)), (3, dict(a=3, b=0, c=0, d=0, verdict=True)), (4, dict(a=0, b=0, c=0, d=0, verdict=True)),
                       (4, dict(a=2, b=3, c=2, d=0, verdict=True))])
 def fields(a: int, b: int, c: int, d: int, verdict: bool) -> bool:
     """
